@@ -18,8 +18,8 @@ from hplsim import build, core, gen, monitor
 PROP = 'C12'
 
 TIERS = {
-    'quick': dict(runs=150000, wall=75, max_events=40),
-    'thorough': dict(runs=600000, wall=1500, max_events=60),
+    'quick': dict(runs=150000, wall=150, max_events=40),
+    'thorough': dict(runs=600000, wall=2400, max_events=60),
 }
 
 TOPICS = ('a', 'b', 'c', 'd', 'e', 'f', 'g', 'h')
@@ -49,9 +49,13 @@ def _pred(sim, visible, depth=0):
     """Predicate templates over the payload {x, y in 0..2, ok}; total (never undefined)."""
     k = sim.weighted('predk', [(3, 'none'), (2, 'cmp'), (1.5, 'in_set'), (1.5, 'in_range'), (1.5, 'ok'), (1, 'notok'),
                                (2.0 if visible else 0, 'ref'), (1, 'conj'), (0.7, 'quant'),
-                               (1.5 if depth < 2 else 0, 'neg'), (1.2, 'cmp2'), (0.8 if visible else 0, 'range_ref')])
+                               (1.5 if depth < 2 else 0, 'neg'), (1.2, 'cmp2'), (0.8 if visible else 0, 'range_ref'),
+                               (0.5 if depth == 0 else 0, 'vacuous')])
     if k == 'none':
         return None
+    if k == 'vacuous':
+        # `{ True }` / `{ False }`: an alternative that always / never matches
+        return ('lit', 'bool', sim.pick('vacv', ('True', 'False', 'False')))
     if k == 'neg':
         inner = _pred(sim, visible, depth + 1) or ('bin', sim.pick('ncmp', ('<', '<=', '>', '>=')), ('field', 'x'), _num12(sim, visible))
         return ('un', 'not', inner)
@@ -139,7 +143,7 @@ class PropGen12:
         s = self.sim
         scope = s.pick('scope', gen.SCOPES)
         pattern = s.pick('pattern', gen.PATTERNS)
-        width = lambda: s.weighted('width', [(4, 1), (4, 2), (2, 3)])  # noqa: E731
+        width = lambda: min(s.weighted('width', [(4, 1), (4, 2), (2, 3), (0.6, 4)]), max(1, len(self.free) - 1))  # noqa: E731
         act = term = trig = None
         vis = []
         if scope in ('after', 'after_until'):
@@ -572,7 +576,7 @@ def worker(job):
     fault_sets = set()
     t0 = time.monotonic()
     for idx in job['indices']:
-        if time.monotonic() - t0 > job['wall']:
+        if time.monotonic() > job['deadline']:  # one deadline for the whole batch (CLOCK_MONOTONIC is system-wide)
             stats['runs_skipped_for_time'] = stats.get('runs_skipped_for_time', 0) + 1
             continue
         seed = core.derive(job['master'], PROP, idx)
@@ -658,7 +662,7 @@ def main(argv):
     nruns = max(16, int(cfg['runs'] * scale))
     nproc = int(os.environ.get('HPLSIM_NPROC', '0')) or min(16, os.cpu_count() or 1)
     indices = list(range(args.offset, args.offset + nruns))
-    jobs = [{'cfg': cfg, 'indices': ch, 'master': master, 'wall': cfg['wall']} for ch in core.chunk(indices, nproc * 4)]
+    jobs = [{'cfg': cfg, 'indices': ch, 'master': master, 'deadline': time.monotonic() + cfg['wall']} for ch in core.chunk(indices, nproc * 4)]
     results = core.run_pool(worker, jobs, nproc=nproc, wall_cap=cfg['wall'] + 240)
     stats, found, samples, digests = {}, [], [], []
     shapes, fault_sets = {}, set()
